@@ -159,12 +159,15 @@ theorem C02.src_node_onetomany_as_modelled :
       "  if outPcks, errPck := n.action(proc, inPck); errPck != nil",
       "    if errWriter == nil",
       "      errWriter = n.errPort.Open(proc)",
+      "    errPck = derive(errPck, inPck)",
       "    n.tracer.Link(inPck, errPck)",
       "    n.tracer.Write(errWriter, errPck)",
       "  else",
+      "    outPcks = slices.Clone(outPcks)",
       "    for i, outPck := range outPcks",
       "      if i < len(outWriters) && outPck != nil",
-      "        n.tracer.Link(inPck, outPck)",
+      "        outPcks[i] = derive(outPck, append(outPcks[:i:i], inPck)...)",
+      "        n.tracer.Link(inPck, outPcks[i])",
       "    count := 0",
       "    for i, outPck := range outPcks",
       "      if i < len(outWriters) && outPck != nil",
